@@ -70,11 +70,6 @@ PROPS = {
         "assumptions": COMMON,
         "explanation": "axis normalisation, avar segment maps, region tent scalars and delta-set index maps vs their specified values",
     },
-    "C04": {
-        "prefixes": ["c04"],
-        "assumptions": COMMON,
-        "explanation": "offset-free write-fonts tables serialised with the real write_into (no packing graph) and re-read with read-fonts: field equality, version-dependent presence, to_owned_table round trip, byte-identical re-serialisation",
-    },
     "C12": {
         "prefixes": ["c12"],
         "assumptions": COMMON,
